@@ -46,10 +46,6 @@ const (
 
 	// Default ranked field cache
 	DefaultCacheSize = 50000
-
-	bitsPerWord = 32 << (^uint(0) >> 63) // either 32 or 64
-	maxInt      = 1<<(bitsPerWord-1) - 1 // either 1<<31 - 1 or 1<<63 - 1
-
 )
 
 // Field types.
@@ -941,26 +937,19 @@ func (f *Field) ClearBit(rowID, colID uint64) (changed bool, err error) {
 	} else if !f.options.NoStandardView {
 		return changed, nil
 	}
-	lastViewNameSize := 0
-	level := 0
-	skipAbove := maxInt
+
+	// Clear the bit in every time view. Skipping the finer views below a
+	// coarser view that did not hold the bit is not safe: the views are not
+	// visited parent-first (hour views sort before their day view, and a
+	// day view is followed directly by the next year view), so a view
+	// holding the bit could be skipped.
 	for _, view := range f.allTimeViewsSortedByQuantum() {
-		if lastViewNameSize < len(view.name) {
-			level++
-		} else if lastViewNameSize > len(view.name) {
-			level--
+		v, err := view.clearBit(rowID, colID)
+		if err != nil {
+			return changed, errors.Wrapf(err, "clearing on view %s", view.name)
+		} else if v {
+			changed = true
 		}
-		if level < skipAbove {
-			if changed, err = view.clearBit(rowID, colID); err != nil {
-				return changed, errors.Wrapf(err, "clearing on view %s", view.name)
-			}
-			if !changed {
-				skipAbove = level + 1
-			} else {
-				skipAbove = maxInt
-			}
-		}
-		lastViewNameSize = len(view.name)
 	}
 
 	return changed, nil
